@@ -1276,4 +1276,88 @@ Proof.
       rewrite (forallb_ident_text _ hbs). exact htail.
 Qed.
 
+Definition semi_sp : list pc := [PcT KSemi; PcS].
+
+Definition okfields : list field -> bool :=
+  fix go (l : list field) : bool :=
+    match l with
+    | [] => true
+    | (names, t, tag) :: r =>
+      let after := if is_nil tag then (if is_nil r then KRBrace else KSemi)
+                   else KLit lit_string (backquote tag) in
+      forallb (fun a => negb (has_prefix itea a)) names &&
+      (match names with
+       | [] => embedded_ok t
+       | _ :: _ => ok true false t (Some after)
+       end) && go r
+    end.
+
+Definition needfields (l : list field) : nat :=
+  fold_right (fun (fd : field) acc => (4 + full true (snd (fst fd)) + acc)%nat) 0%nat l.
+
+Definition normfd (fd : field) : field := (fst (fst fd), norm (snd (fst fd)), snd fd).
+
+Lemma field_first fd q sep : field_pieces fd = Some q -> okfield fd sep = true ->
+  exists t r, toks q = t :: r /\ not_rbrace (t :: r) = true.
+Proof.
+  destruct fd as [[names t] tag]. unfold field_pieces, okfield. cbn [fst snd]. intros hq hok.
+  destruct (pp t) as [pt|] eqn:ept; [|discriminate]. injection hq as <-.
+  apply andb_prop in hok. destruct hok as [_ hok].
+  destruct names as [|a bs].
+  - cbn [map sep_by app]. rewrite !toks_app.
+    destruct (first_tok_cons t pt ept) as [t0 [r0 [h1 _]]]. rewrite h1. cbn [app]. eexists. eexists. split; [reflexivity|].
+    unfold ExprFullOk.embedded_ok in hok.
+    destruct t; try discriminate; cbn [ExprFullM.pp] in ept.
+    + injection ept as <-. cbn in h1. injection h1 as <- _. reflexivity.
+    + inv_pp ept. try subst pt. destruct sym_mul_ok as [hm1 hm2].
+      apply andb_prop in hok. destruct hok as [hok _]. apply andb_prop in hok. destruct hok as [_ hmul].
+      unfold ExprFullOk.spelled_mul in hmul.
+      match goal with h : spell op = Some ?s |- _ => rewrite h in hmul end. apply bytes_eqb_eq in hmul. subst.
+      rewrite !toks_app, (op_pieces_one sym_mul hm1 hm2) in h1. cbn in h1. injection h1 as <- _. reflexivity.
+    + destruct t; try discriminate. cbn [ExprFullM.pp] in ept. inv_pp ept. try subst pt. cbn in h1. injection h1 as <- _. reflexivity.
+  - rewrite !toks_app, toks_names. cbn [app]. eexists. eexists. split; reflexivity.
+Qed.
+
+Lemma fields_run : forall fields ls, Forall2 (fun fd q => field_pieces fd = Some q) fields ls ->
+  Forall (fun fd : field => A_stmt (snd (fst fd))) fields ->
+  forall rest, okfields fields = true ->
+  forall m, (1 + needfields fields <= m)%nat ->
+  pfields m (toks (sep_by semi_sp ls) ++ KRBrace :: rest) = ROk (map normfd fields, rest).
+Proof.
+  induction 1 as [|fd q fields ls hq hrest IH]; intros hA rest hok m hm.
+  - cbn [sep_by toks app map]. destruct m as [|k]; [lia|]. apply pfields_end.
+  - inversion hA as [|x y hAf hAr]. subst x y.
+    cbn [needfields fold_right] in hm. destruct m as [|k]; [lia|]. destruct k as [|k]; [lia|].
+    assert (hokf : okfield fd (if is_nil fields then KRBrace else KSemi) = true /\ okfields fields = true).
+    { destruct fd as [[names t] tag]. cbn [okfields] in hok. apply andb_prop in hok. destruct hok as [hok hr].
+      split; [|exact hr]. unfold okfield. exact hok. }
+    destruct hokf as [hokf hokr].
+    rewrite sep_by_cons. cbn [map].
+    destruct (field_first fd q _ hq hokf) as [t0 [r0 [ht0 hnr]]].
+    destruct hrest as [|fd2 q2 fields' ls' hq2 hrest'].
+    + cbn [is_nil] in hokf. rewrite pfields_S by (rewrite ht0; exact hnr).
+      rewrite (field_run fd q KRBrace rest k hAf hq hokf (or_intror eq_refl)) by lia.
+      cbn [rbind fst snd]. rewrite pfields_end. reflexivity.
+    + cbn [is_nil] in hokf. rewrite !toks_app. change (toks semi_sp) with [KSemi]. rewrite <- !app_assoc. cbn [app].
+      rewrite pfields_S by (rewrite ht0; exact hnr).
+      rewrite (field_run fd q KSemi (toks (sep_by semi_sp (q2 :: ls')) ++ KRBrace :: rest) k hAf hq hokf (or_introl eq_refl)) by lia.
+      cbn [rbind fst snd].
+      rewrite (IH hAr rest hokr (S k)) by (unfold needfields in *; cbn [fold_right] in *; lia).
+      reflexivity.
+Qed.
+
+Lemma A_struct p fs : Forall (fun fd : field => A_stmt (snd (fst fd))) fs -> A_stmt (XStruct p fs).
+Proof.
+  intros IHfs ty el nxt hok ps hpp g0 b0 c g P rest hnxt hh.
+  cbn [ExprFullOk.ok] in hok. cbn [ExprFullM.pp] in hpp.
+  destruct (join_opt [PcT KSemi; PcS] _) as [pf|] eqn:epf; [|discriminate]. injection hpp as <-.
+  destruct (join_opt_F2 [PcT KSemi; PcS] field_pieces fs pf epf) as [ls [hF2 ->]].
+  exists true. intros n hn.
+  cbn [ExprFull_base.cost ExprFull_base.need ExprFull_base.spine ExprFull_base.lastop ExprFull_base.norm is_operator negb app] in *.
+  change (1 + n)%nat with (S n). rewrite andb_true_r. norm_toks.
+  rewrite po_struct. change [PcT KSemi; PcS] with semi_sp.
+  rewrite (fields_run fs ls hF2 IHfs rest hok n) by (unfold needfields; unfold ExprFull_base.full in *; lia).
+  reflexivity.
+Qed.
+
 End Main.
